@@ -264,8 +264,15 @@ def _find(prop, name):
     raise HarnessError("no sub-check %s/%s" % (prop, name))
 
 
-def _make_body(sc, ctx, res, t0, budget, journal):
+def _make_body(sc, ctx, res, t0, budget, journal, skip_first=False):
+    state = {"first": skip_first}
+
     def body(case):
+        if state["first"]:
+            # Hypothesis always starts a run with the all-simplest example; with 16 shards that would be
+            # the same case 16 times.  Only shard 0 evaluates it.
+            state["first"] = False
+            return
         if budget is not None and time.time() - t0 > budget:
             res["skipped_budget"] += 1
             return
@@ -312,7 +319,9 @@ def worker_main(args):
         t0 = time.time()
         hseed = (seed * 1000003 + shard * 7919 + int(hashlib.sha1(sc.name.encode()).hexdigest()[:6], 16)) % (2**31)
 
-        body = _make_body(sc, ctx, res, t0, budget, journal)
+        body = _make_body(sc, ctx, res, t0, budget, journal, skip_first=(shard != 0))
+        if shard != 0:
+            nk += 1
         test = given(sc.strategy())(body)
         test = settings(max_examples=nk, database=None, deadline=None, derandomize=False,
                         report_multiple_bugs=False, phases=[Phase.generate],
